@@ -145,7 +145,7 @@ REGISTRY.add(Contract(
     ensures=["implies(not posix, result == False)",
              "implies(posix and readable == 'ok', result == (tg == pid))",          # thread IDs are not PIDs
              "implies(posix and readable != 'ok', result == (pid in listed))"],
-    raises={}, canaries=["result == True"], replay=None,
+    raises={}, canaries=["result == True"], replay="c04:linux_pid_exists",
     note="True exactly for thread-group leaders; falls back to the listing when status cannot be read"))
 
 
